@@ -40,14 +40,25 @@ ExpectedOfElem(s, n, fn, kind, x) ==
       [] kind = "L" -> {h \in occ : DefOfItem(s, Last(h)) # None /\ s.defLib[DefOfItem(s, Last(h))] = x}
       [] OTHER -> {h \in occ : Last(h) = <<kind, x>>}
 
+(* a pin or port as the root of a wire / cable query: what is attached INSIDE, in every occurrence *)
+WiresOfItem(s, n, kind, x) ==
+    LET pins == IF kind = "Q" THEN {x} ELSE SeqSet(s.portPins[x]) IN
+    UNION {InsideWire(s, hp) : hp \in {h \in OccPin(s, n) : Last(h)[2] \in pins}}
+ExpectedOfItem(s, n, fn, kind, x) ==
+    IF kind \in {"P", "Q"} /\ fn = "hwires" THEN WiresOfItem(s, n, kind, x)
+    ELSE IF kind \in {"P", "Q"} /\ fn = "hcables" THEN {Front(hw) : hw \in WiresOfItem(s, n, kind, x)}
+    ELSE ExpectedOfElem(s, n, fn, kind, x)
+RootM(n, kind, x) == [t |-> "M", id |-> n, kind |-> kind, x |-> x]     \* the collection [netlist n, element x]
 ExpectedHQ(s, c) ==
-    LET n == IF c.root.t = "N" THEN c.root.id ELSE TheNetlist(s)
+    LET n == IF c.root.t \in {"N", "M"} THEN c.root.id ELSE TheNetlist(s)
         occ == OccOfFn(s, n, c.fn)
         top == TopOf(s, n) IN
     CASE c.root.t = "N" ->
            IF c.rec THEN occ
            ELSE {h \in occ : Depth(h) = (IF c.fn = "hinstances" THEN 2 ELSE 1)}
-      [] c.root.t = "E" -> ExpectedOfElem(s, n, c.fn, c.root.kind, c.root.id)
+      [] c.root.t = "E" -> ExpectedOfItem(s, n, c.fn, c.root.kind, c.root.id)
+      [] c.root.t = "M" -> (IF c.rec THEN occ ELSE {h \in occ : Depth(h) = (IF c.fn = "hinstances" THEN 2 ELSE 1)})
+                           \cup ExpectedOfItem(s, n, c.fn, c.root.kind, c.root.x)
       [] c.root.t = "S" -> UNION {ExpectedOfElem(s, n, c.fn, c.root.kind, x) : x \in c.root.ids}
       [] c.root.t = "H" ->
            IF ~Valid(s, c.root.h) THEN {}
@@ -120,6 +131,14 @@ BuildCands(s, sc) ==
                  : d \in sc.parents \cap IdsD(s)}
      ELSE {})
 
+(* walks: any free pin slot of a definition to any wire of that definition (local, in no particular order) *)
+LocalConnectCands(s, sc) ==
+    IF On(sc, "l:connect")
+    THEN UNION {LET slots == SlotsOf(s, d) IN
+                {[op |-> "connect", w |-> w, pin |-> slots[j], pos |-> pos] :
+                    <<w, j, pos>> \in SeqSet(WiresOf(s, d)) \X {jj \in DOMAIN slots : WireOfRef(s, slots[jj]) = None} \X sc.pos}
+                : d \in sc.parents \cap IdsD(s)}
+    ELSE {}
 (* queries offered in a state (the calls whose answers the oracle judges) *)
 Fns == {"hinstances", "hports", "hpins", "hcables", "hwires"}
 QueryCandsC11(s) ==
@@ -134,6 +153,11 @@ QueryCandsC11(s) ==
     \cup {HQ("hpins", RootE("Q", x), FALSE) : x \in IdsQ(s)}
     \cup {HQ("hcables", RootE("C", x), FALSE) : x \in IdsC(s)}
     \cup {HQ("hwires", RootE("W", x), FALSE) : x \in IdsW(s)}
+    \* ports and pins as roots of cable / wire queries, alone and in a collection together with the netlist
+    \cup {HQ(fn, RootE("P", x), FALSE) : <<fn, x>> \in {"hcables", "hwires"} \X IdsP(s)}
+    \cup {HQ(fn, RootE("Q", x), FALSE) : <<fn, x>> \in {"hcables", "hwires"} \X IdsQ(s)}
+    \cup {HQ(fn, RootM(n, k[1], k[2]), rec) :
+             <<fn, k, rec>> \in {"hcables", "hwires"} \X ({<<"P", x>> : x \in IdsP(s)} \cup {<<"Q", x>> : x \in IdsQ(s)}) \X BOOLEAN}
     \cup {HQ(fn, RootH(h), rec) : <<fn, h, rec>> \in Fns \X (OccInst(s, n) \cup {<< <<"I", TopOf(s, n)>> >>}) \X BOOLEAN}
 QueryCandsC12(s) ==
     LET n == TheNetlist(s) IN
@@ -156,7 +180,10 @@ XfCands(s) ==
                           /\ s1.defKids[s1.instRef[j]] # <<>>
                           /\ LET r == Apply(s1, [op |-> "set_ref", i |-> i, d |-> s1.instRef[j]]) IN
                              r.out = "ok" /\ Acyclic(r.s)}
-        pick == IF shareAgain = {} THEN {} ELSE {CHOOSE p \in shareAgain : TRUE}
+        \* one pair whose target definition was created by the first pass, one whose target is an original
+        newT == {p \in shareAgain : s1.instRef[p[2]] > NumD(s)}
+        oldT == shareAgain \ newT
+        pick == (IF newT = {} THEN {} ELSE {CHOOSE p \in newT : TRUE}) \cup (IF oldT = {} THEN {} ELSE {CHOOSE p \in oldT : TRUE})
     IN {[op |-> "seq", calls |-> << U, U, [op |-> "flatten", n |-> 1] >>]}
        \cup {[op |-> "seq", calls |-> << U, [op |-> "set_ref", i |-> p[1], d |-> s1.instRef[p[2]]], U >>] : p \in pick}
 (* queries that take part in random walks (scopes with walk = TRUE): they are steps of the       *)
